@@ -1,20 +1,79 @@
 # Per-check driver configuration: evidence level, worker variants, shard counts,
-# internal deadlines (seconds) and the evidence "rule" / assumptions texts.
+# internal deadlines (seconds), evidence "rule"/assumptions and the MANIFEST texts.
 COMMON_ASSUME = [
     "Go runtime, testing/synctest virtual time and the sync package behave as documented",
-    "unsynchronised data accesses are outside a cooperative exploration; they are the business of the separate free-running -race pass",
+    "goroutine schedules inside one quiescence step are not enumerated by the event-level search (node state is loop-confined); "
+    "unsynchronised accesses are the business of the separate free-running -race pass, lock-level interleavings of the shared components of E-SCHED",
 ]
 
+WORLD_RULE = ("state = canonical dump of the real PubSub/router/score object graph (reflection walk, unexported fields included) + harness view "
+              "(connections, stream states, gates, monitor state); a transition is one event applied through the real entry points and run to "
+              "quiescence in a synctest bubble; non-trivial = distinct canonical observation log of an execution")
+
+ALL_PROPERTIES = ["C%02d" % i for i in range(1, 21)]
+
 CHECKS = {
-    "C15": {
-        "level": "model_checking",
-        "variants": ["main"],
-        "shards": 3,
-        "deadline_quick": 90, "deadline_thorough": 900,
-        "technique": "explicit-state BFS by replay over the real rpcQueue vs. a reference model",
-        "rule": "state = canonical dump of the real queue + pending calls + cancelled contexts; "
-                "a transition is one queue operation run to quiescence in a synctest bubble; "
-                "non-trivial = distinct canonical observation log of an execution",
+    "C07": {
+        "level": "model_checking", "shards": 16, "deadline_quick": 100, "deadline_thorough": 1500,
+        "engine": "E-WORLD",
+        "technique": "explicit-state model checking of the implementation: BFS by replay around one real gossipsub node; explorer-owned shuffle outcomes (deviation bound 1 per event)",
+        "rule": WORLD_RULE,
+        "level_text": "every history up to the depth bound over peer churn, remote GRAFT/PRUNE, join/leave, score changes, heartbeats and time advances, "
+                      "from scratch and from seeded over-/under-subscribed meshes, for six accepted parameter sets, with every single-deviation shuffle outcome; "
+                      "all mesh clauses of the statement are evaluated on in-loop snapshots before/after every event and on the wire log",
+        "level_note": "bounded depth and peer count; shuffle outcomes with >1 deviation from sorted order per event are not explored",
         "assumptions": COMMON_ASSUME,
+        "design_ref": "DESIGN.md §5 C07",
+    },
+    "C08": {
+        "level": "model_checking", "shards": 4, "deadline_quick": 100, "deadline_thorough": 1500,
+        "engine": "E-WORLD",
+        "technique": "explicit-state model checking of the implementation: BFS by replay around one real gossipsub node with a per-(peer,topic) backoff monitor automaton fed by the wire log in virtual time",
+        "rule": WORLD_RULE,
+        "level_text": "every history up to the depth bound over join/leave, heartbeat, remote GRAFT/PRUNE with and without explicit backoff, departures/returns, "
+                      "dropped-and-retried control (queue size 1, gated writes) and time advances on both sides of the deadlines and across the 15-tick sweep; "
+                      "a monitor flags any GRAFT on the wire before the applicable deadline and checks refusal, penalty and refresh on GRAFT-during-backoff",
+        "level_note": "the monitor's deadlines are lower bounds of the obligation (decision time >= start of the step); frames released from a blocked write are not judged",
+        "assumptions": COMMON_ASSUME,
+        "design_ref": "DESIGN.md §5 C08",
+    },
+    "C11": {
+        "level": "exploration", "shards": 16, "deadline_quick": 100, "deadline_thorough": 1500,
+        "engine": "E-SEQ (inputs)",
+        "technique": "bounded-exhaustive input enumeration: every RPC shape of a finite alphabet x every integer size limit, through the real RPC.split and the real sendRPC + queue",
+        "rule": "cases = (RPC shape from the product of per-kind content lists) x (every integer limit 1..size+2) through RPC.split, plus a band of limits through "
+                "GossipSubRouter.sendRPC into a real gated queue; non-trivial = distinct (shape, limit) whose split yields more than one fragment",
+        "level_text": "the whole product of a finite shape alphabet (messages of several sizes, subscriptions, all six control kinds, extension / partial / test-extension fields) "
+                      "with every integer limit from 1 to size+2 is pushed through the real splitter and judged by a canonical content multiset oracle; "
+                      "a sub-family also goes through the real sendRPC into a real outbound queue",
+        "level_note": "universal only over the enumerated shape alphabet; element sizes are representative, not all sizes",
+        "assumptions": ["gogo-protobuf Size()/Marshal() are consistent", "the shape alphabet is representative of RPC structure (sizes are not)"],
+        "design_ref": "DESIGN.md §5 C11",
+    },
+    "C15": {
+        "level": "model_checking", "variants": ["main", "sched"], "shards": 15, "deadline_quick": 90, "deadline_thorough": 900,
+        "engine": "E-SEQ + E-SCHED",
+        "technique": "explicit-state model checking of the implementation: BFS by replay over the real rpcQueue vs. a reference model",
+        "rule": "state = canonical dump of the real queue + pending calls + cancelled contexts; a transition is one queue operation run to quiescence in a "
+                "synctest bubble; non-trivial = distinct canonical observation log of an execution",
+        "level_text": "every sequence of queue operations up to the depth bound (pending blocking calls are part of the state) is executed on the real rpcQueue "
+                      "for capacities 1..3 and compared with a reference model after every step",
+        "level_note": "trusts synctest quiescence detection and the reference model in harness/c15seq.go",
+        "assumptions": COMMON_ASSUME,
+        "design_ref": "DESIGN.md §5 C15",
+    },
+    "C18": {
+        "level": "model_checking", "shards": 2, "deadline_quick": 100, "deadline_thorough": 1200,
+        "engine": "E-WORLD",
+        "technique": "explicit-state model checking of the implementation: BFS by replay around one real node with scripted peers",
+        "rule": WORLD_RULE,
+        "level_text": "every history up to the depth bound over remote subscribe/unsubscribe/disconnect/reconnect of two peers, handler creation/cancellation and "
+                      "NextPeerEvent calls issued as blocking calls that stay pending across later events (and their cancellation); fold, alternation and lost-wake-up oracles "
+                      "after every event, full drain at the end of every history",
+        "level_note": "interleavings inside the two lock-protected sections of the event log are not enumerated (channel-based signalling)",
+        "assumptions": COMMON_ASSUME,
+        "design_ref": "DESIGN.md §5 C18",
     },
 }
+
+NOT_YET = "check not built yet in this round (planned: DESIGN.md §5); not claimed"
